@@ -127,6 +127,35 @@ def _fit_args(m, X):
     return (X,)
 
 
+class _Deadline(Exception):
+    pass
+
+
+def _deadline(seconds):
+    """context manager: a fit on 8 samples that is still running after `seconds` was not stopped by validation (rejection is
+    immediate: validation comes first)"""
+    import contextlib
+    import signal
+    import threading
+
+    @contextlib.contextmanager
+    def cm():
+        if threading.current_thread() is not threading.main_thread():
+            yield
+            return
+
+        def h(*a):
+            raise _Deadline()
+        old = signal.signal(signal.SIGALRM, h)
+        signal.setitimer(signal.ITIMER_REAL, seconds)
+        try:
+            yield
+        finally:
+            signal.setitimer(signal.ITIMER_REAL, 0)
+            signal.signal(signal.SIGALRM, old)
+    return cm()
+
+
 def probe_table(tier):
     obs = []
     for cls in estimators_all():
@@ -156,8 +185,12 @@ def probe_table(tier):
                             bad.append({"value": repr(val)[:40], "in_domain": True, "problem": "rejected: " + repr(e)[:100]})
                     else:
                         try:
-                            m.fit(*_fit_args(m, X))
+                            with _deadline(20):
+                                m.fit(*_fit_args(m, X))
                             bad.append({"value": repr(val)[:40], "in_domain": False, "problem": "fit succeeded"})
+                            continue
+                        except _Deadline:
+                            bad.append({"value": repr(val)[:40], "in_domain": False, "problem": "not rejected: fit on 8 samples still training after 20 s"})
                             continue
                         except (ValueError, TypeError) as e:
                             pass
